@@ -200,3 +200,26 @@ Definition wf_consts (cs : list (nat * bytes)) : bool := forallb (fun c => all_b
 (* every referenced field lies inside the block *)
 Definition covers (rs : list (nat * prm_def)) (p : bytes) : bool :=
   forallb (fun r => Nat.leb (fst r + dt_size (d_type (snd r))) (length p)) rs.
+
+(* bit positions are u8 in the crate *)
+Definition dt_u8 (dt : prm_dtype) : bool :=
+  match dt with
+  | DtBit b => is_byteb b
+  | DtBitArea f l => is_byteb f && is_byteb l
+  | _ => true
+  end.
+
+Definition wf_refs (rs : list (nat * prm_def)) : bool := forallb (fun r => dt_u8 (d_type (snd r))) rs.
+
+Definition wf_desc (d : desc) : bool := wf_consts (consts d) && wf_refs (refs d).
+
+(* the per-call oracle along a whole call sequence (results as `run` returns them) *)
+Definition accepted_of (r : set_res) : bool := match r with SOk => true | SErr _ => false end.
+
+Fixpoint c20_trace_ok (d : desc) (p : bytes) (ops : list op) (l : list (set_res * bytes)) : bool :=
+  match ops, l with
+  | [], [] => true
+  | o :: ops', (r, p') :: l' =>
+      (c20_step_known d p o || c20_step_ok d p o (Some (accepted_of r)) p') && c20_trace_ok d p' ops' l'
+  | _, _ => false
+  end.
